@@ -39,6 +39,22 @@ first stream: weights, numeric measures, mirrored hides / prunes / explicit orde
 population, min-base masks, the independent tabulation in the order B, A, every paired public
 member compared with its twin (an exception on one side only is a difference), and leg (b) on a
 sample of them.
+
+Sorts by value with several subtotals on both dimensions (added after the seeded change C10-8, which
+made `_SortColumnsByInsertedRowHelper` take the sort keys of the COLUMN subtotals from the block
+"inserted columns x base rows" instead of the intersections: the first stream seldom has an
+`opposing_insertion` sort whose sorted dimension shows two subtotals AND whose opposing dimension has
+the insertion asked for, so the order of the subtotals among themselves was not exercised).  A third
+stream (`sort-stream`, own generator seeded with seed+20, the other streams are unchanged): CAT /
+CAT_DATE x CAT / CAT_DATE (never two CAT_DATEs) with 3-5 valid categories, 12-60 respondents, 2-3
+subtotals (20% differences) with the ids 1..n on BOTH dimensions (as view insertions or as transform
+insertions), and ONE dimension - the rows or the columns of A x B, hence the columns or the rows of
+B x A - sorted by `opposing_insertion` (an insertion id that exists), `opposing_element` or `label`,
+any measure, either direction, sometimes with fixed elements, hides and prune.  The oracle is the one
+of leg (a): "transforms mirrored on the exchanged dimensions" - the rows of A x B sorted by an
+inserted column and the columns of B x A sorted by the same inserted row must come out in the same
+order, base vectors and subtotals alike, so every paired member agrees.  (A marginal sort exists for
+rows only and stays outside the relation.)
 """
 import copy
 import inspect
@@ -324,6 +340,93 @@ def gen_case(rng, k, arr=False):
     return finish_case(case)
 
 
+SORT_PAIRS = [("cat", "cat")] * 4 + [("cat", "cat_date"), ("cat_date", "cat")]
+
+
+def sort_stream_insertions(rng, v, n):
+    """n subtotals (some of them differences) with the ids 1..n on the categorical variable v"""
+    valid = gen.valid_cat_ids(v)
+    out = []
+    for k in range(n):
+        pos = rng.sample(valid, rng.randint(1, min(3, len(valid))))
+        neg = []
+        if rng.random() < 0.2:
+            rest = [p for p in valid if p not in pos] or valid
+            neg = rng.sample(rest, rng.randint(1, min(2, len(rest))))
+        r = rng.random()
+        anchor = "top" if r < 0.25 else "bottom" if r < 0.5 else rng.choice(valid)
+        d = {"function": "subtotal", "name": "%s_ins%d" % (v.alias, k), "anchor": anchor, "id": k + 1}
+        if neg:
+            d["kwargs"] = {"positive": pos, "negative": neg}
+        elif rng.random() < 0.5:
+            d["args"] = pos
+        else:
+            d["kwargs"] = {"positive": pos}
+        out.append(d)
+    return out
+
+
+def gen_sort_case(rng, k):
+    """sort-stream: CAT / CAT_DATE x CAT / CAT_DATE (never two CAT_DATEs) with 2-3 subtotals with ids
+    on BOTH dimensions and ONE dimension - rows or columns of A x B, hence columns or rows of B x A -
+    sorted by a value of the other: by an opposing insertion, an opposing element or the labels."""
+    kinds = rng.choice(SORT_PAIRS)
+    vs = [make_var_wide(rng, kinds[0], "va"), make_var_wide(rng, kinds[1], "vb")]
+    n_ins = [rng.choice([2, 2, 3]), rng.choice([2, 2, 3])]
+    ins = [sort_stream_insertions(rng, v, n) for v, n in zip(vs, n_ins)]
+    as_transform = [rng.random() < 0.5, rng.random() < 0.5]
+    for v, i, tr in zip(vs, ins, as_transform):
+        if not tr:
+            v.view_insertions = i
+    numeric = rng.random() < 0.3
+    n_resp = rng.choice([12, 20, 30, 45, 60])
+    sv = gen.Survey(vs, n_resp, rng, numvars=["x"] if numeric else [])
+    aliases = [v.alias for v in vs]
+    measures = ["count"]
+    if numeric:
+        measures += rng.sample(["mean", "sum", "stddev"], rng.randint(1, 3))
+        if "sum" not in measures:
+            measures.append("sum")
+    transforms = {}
+    sorter = rng.choice([0, 1])
+    for n, key in enumerate(("rows_dimension", "columns_dimension")):
+        d = {}
+        if as_transform[n]:
+            d["insertions"] = ins[n]
+        ids = dim_ids(vs[n])
+        if rng.random() < 0.15:
+            d["elements"] = {str(rng.choice(ids)): {"hide": True}}
+        if rng.random() < 0.15:
+            d["prune"] = True
+        if n == sorter:
+            kind = rng.choice(["opposing_insertion"] * 5 + ["opposing_element"] * 3 + ["label"])
+            o = {"type": kind, "direction": rng.choice(["ascending", "descending"])}
+            if kind != "label":
+                o["measure"] = rng.choice(SORT_MEASURES + (SORT_MEASURES_NUM if numeric else []))
+            if kind == "opposing_element":
+                o["element_id"] = rng.choice(dim_ids(vs[1 - n]))
+            if kind == "opposing_insertion":
+                o["insertion_id"] = rng.randint(1, n_ins[1 - n])
+            if rng.random() < 0.2:
+                o["fixed"] = {rng.choice(["top", "bottom"]): [rng.choice(ids)]}
+            d["order"] = o
+        if d:
+            transforms[key] = d
+    case = {"k": k, "stream": "sort", "kinds": list(kinds), "survey": cu.survey_to_json(sv),
+            "aliases": aliases, "measures": measures, "numvar": "x" if numeric else None,
+            "valid_counts": False, "unavailable": [], "transforms": transforms,
+            "population": rng.choice([None, 1000, 7500.5]),
+            "filter_stats": gen_filter_stats(rng) if rng.random() < 0.3 else {},
+            "mask_size": rng.choice([0, 0, 0, 5])}
+    return finish_case(case)
+
+
+def make_var_wide(rng, kind, alias):
+    """a categorical variable with 3-5 valid categories (room for 2-3 distinct subtotals)"""
+    return gen.make_cat(rng, alias, date=(kind == "cat_date"), n_valid=rng.randint(3, 5),
+                        numeric=rng.choice(["none", "all", "partial"]))
+
+
 def swap_perm(sv, aliases):
     blocks = cu.axis_blocks(sv, aliases)
     assert len(blocks) == 2, blocks
@@ -583,6 +686,8 @@ def run_relational(case, members):
             fails.append((name, twin, d))
     shp = impl.get(A, "shape")
     info["shape"] = impl.tolist(shp[1]) if shp[0] == "ok" else None
+    nins = [impl.get(A, m) for m in ("inserted_row_idxs", "inserted_column_idxs")]
+    info["n_inserted"] = [len(r[1]) if r[0] == "ok" else None for r in nins]
     dts = impl.get(A, "dimension_types")
     info["types"] = [getattr(t, "name", str(t)) for t in dts[1]] if dts[0] == "ok" else None
     if shp[0] != "ok":
@@ -746,6 +851,18 @@ def evaluate(cases, rep, members, n_model, tag="cases", n_model_arr=0):
             rep.dist("arr-stream:types=" + "x".join(info["types"]) + ("" if nontrivial else "(trivial)"))
         if info.get("both_raise"):
             rep.dist("both-orders-raise:" + str(info["both_raise"]))
+        if case.get("stream") == "sort":
+            rep.dist("sort-stream")
+            for key, opp in (("rows_dimension", 1), ("columns_dimension", 0)):
+                o = (t.get(key) or {}).get("order")
+                if not o:
+                    continue
+                rep.dist("sort-stream:%s-on-%s" % (o["type"], key.split("_")[0]))
+                nin = info.get("n_inserted") or [None, None]
+                if nontrivial and (nin[1 - opp] or 0) >= 2 and (nin[opp] or 0) >= 1:
+                    # the sorted dimension shows >= 2 subtotals (ordered among themselves by the key
+                    # vector) and the opposing one shows an insertion
+                    rep.dist("sort-stream:%s-with->=2-sorted-subtotals" % o["type"])
         sorted_by_value = has_value_sort(case["transforms"])
         if fails and sorted_by_value and order_near_tie(case):
             rep.cov["skipped_near_threshold"] += 1
@@ -811,6 +928,10 @@ def run(tier, seed):
     n_model_arr = 30 if tier == "quick" else 300
     rng_arr = random.Random(seed + 10)
     cases += [gen_case(rng_arr, n_cases + k, arr=True) for k in range(n_arr)]
+    # third stream, own generator: sorts by value with several subtotals on both dimensions
+    n_sort = 200 if tier == "quick" else 2000
+    rng_sort = random.Random(seed + 20)
+    cases += [gen_sort_case(rng_sort, n_cases + n_arr + k) for k in range(n_sort)]
     n_cmp, n_terms, coq_s = evaluate(cases, rep, members, n_model, n_model_arr=n_model_arr)
     pairs, selfs, outside = members
     rep.cov["rule"] = (
@@ -825,6 +946,10 @@ def run(tier, seed):
         "cases): a bare subvariables dimension `sv` (CA_SUBVAR without a categories dimension: 1-4 items, "
         "25% with a missing item) crossed with sv (half of the stream: ARR x ARR), mr (ARR x MR, MR x ARR), "
         "cat / cat_date (ARR x CAT, CAT x ARR), otherwise generated and mirrored like the first stream.  "
+        "sort-stream (random.Random(seed+20), 200 / 2000 cases): cat / cat_date x cat / cat_date (not both "
+        "cat_date) with 3-5 valid categories, 12-60 respondents, 2-3 subtotals (20% differences) with ids on "
+        "BOTH dimensions (view or transform insertions) and one dimension sorted by opposing_insertion (5/9), "
+        "opposing_element (3/9) or label (1/9), any measure; 15% hides / prune.  "
         "The B x A response is the A x B response with "
         "its dimensions exchanged and every array transposed (checked against the independent "
         "tabulation in the order B, A).  non-trivial = both orders give a slice with >= 1 row and >= 1 "
